@@ -123,6 +123,8 @@ class Normaliser:
             n, d = self.ratfun(r, _norules=True)
             if d != p_const(1):
                 raise HarnessError("rewrite rule with a denominator")
+            if any(a == i for m in n for a, _ in m):
+                raise HarnessError("rewrite rule whose replacement mentions the rewritten variable")
             self.rule_polys[i] = n
         pend, self.pending_alias = self.pending_alias, []
         for var, repl in pend:
